@@ -45,7 +45,10 @@ RULE = ('enum: every sequence of length <= 8 (quick: <= 6) over alphabets of siz
         'pair of families; every (start, end) in [-L-2, L+2]^2 for sampled sequences. obs: compiled '
         'function on every sequence of the same scope (batched), end = L (seeds 0..1 up to length 7) and the default end = -1, plus random '
         'sequences up to length 300, alphabets 2-8, batch <= 4, n in {1,2,5,20}, random regions incl. '
-        'negative bounds; seeds as Python int or numpy integer scalar / 0-d array (third call with int(seed) must agree). shuf: every sequence of length <= 6 (quick: <= 5) batched, every region in '
+        'negative bounds; seeds as Python int or numpy integer scalar / 0-d array (third call with int(seed) must agree). '
+        'forms: one or two deviations from the plain call at a time (X dtype uint8..float64/bool, non-contiguous / view / '
+        'expanded / requires_grad X, numpy-int start/end/n, omitted and None arguments, RandomState object / reused / no seed, '
+        'verbose, n = 0, large seeds), each compared with its plain twin; an unrelated call between the two repetitions. shuf: every sequence of length <= 6 (quick: <= 5) batched, every region in '
         '[-L-2, L+2]^2, n in {1,2}, seeds; random long; plus a malformed stream. Non-trivial = the call '
         'returned and its region has length >= 3 with >= 2 distinct characters in some example')
 EXHAUSTIVE = {'quick': True, 'thorough': True}
